@@ -1,7 +1,7 @@
 //! C10 — Wrath server headers of both lengths round-trip and keep the stream in step.
 use crate::objs;
 use crate::util::*;
-use std::io::Cursor;
+use crate::faultio::{Fail, FragReader};
 use wow_srp::wrath_header::{ClientCrypto, ServerCrypto, WrathServerAttempt};
 
 pub fn layout(size: u32, opcode: u16) -> Vec<u8> {
@@ -78,9 +78,13 @@ pub fn one_header(rep: &mut Rep, c: &mut Conn, size: u32, opcode: u16, via_write
         if path == 0 {
             let mut buf = wire.clone();
             buf.extend_from_slice(&[0xEE, 0xEE, 0xEE]);
-            let mut cur = Cursor::new(buf);
-            let h = c.client.read_and_decrypt_server_header(&mut cur);
-            (h.map(|h| (h.size, h.opcode)).map_err(|e| e.to_string()), cur.position() as usize)
+            // the reader delivers the bytes in fragments that change from header to header (a socket or a BufReader
+            // refill boundary may fall anywhere inside a header)
+            let cuts = (c.sent as u32).wrapping_mul(0x9E37_79B9) >> 27;
+            let n = buf.len();
+            let mut rd = FragReader::new(&buf, n, cuts, (c.sent & 8) != 0, Fail::None);
+            let h = c.client.read_and_decrypt_server_header(&mut rd);
+            (h.map(|h| (h.size, h.opcode)).map_err(|e| e.to_string()), rd.pos)
         } else {
             let first = [wire[0], wire[1], wire[2], wire[3]];
             match c.client.attempt_decrypt_server_header(first) {
@@ -161,8 +165,15 @@ encode route (slice/writer) and decode path (read-based / attempt+byte) vary per
                         alive = step(&mut rep, &mut conn, &mut rng, size, op);
                     }
                 }
+                // 57 more opcodes per size: every value of the low byte and of the high byte occurs for every size class
+                for j in 0..57u32 {
+                    if alive {
+                        let op = (((i.wrapping_mul(57) + j) & 0xFF) as u16) | ((((i >> 3).wrapping_add(j * 5)) & 0xFF) as u16) << 8;
+                        alive = step(&mut rep, &mut conn, &mut rng, size, op);
+                    }
+                }
             }
-            rep.distinct_extra += (1u64 << 17) * OPS.len() as u64;
+            rep.distinct_extra += (1u64 << 17) * (OPS.len() as u64 + 57);
             rep.count("sizes_enumerated", 1 << 17);
         } else if tier == "quick" {
             // every size 0..=0x7FFFFF once, with a varying opcode, in scrambled order
